@@ -6,6 +6,7 @@ mod c02;
 mod c03;
 mod c04;
 mod c05;
+mod c08;
 mod c10;
 mod c11;
 mod c12;
@@ -28,6 +29,7 @@ pub fn build(prop: &str, tier: &str) -> Vec<Scenario> {
         "C05" => c05::build(quick),
         "C06" => chan::build_c06(quick),
         "C07" => chan::build_c07(quick),
+        "C08" => c08::build(quick),
         "C10" => c10::build(quick),
         "C11" => c11::build(quick),
         "C12" => c12::build(quick),
